@@ -13,6 +13,7 @@ fn main() {
 		"client_tables_return_to_empty" => probes::client_tables_return_to_empty(),
 		"client_call_routing" => probes::client_call_routing(),
 		"client_batch_positional" => probes::client_batch_positional(),
+		"response_size_limit" => probes::response_size_limit(),
 		_ => json!({"probe": name, "error": "unknown probe"}),
 	};
 	println!("{}", res);
